@@ -168,7 +168,7 @@ def register(M, h):
                 elif isinstance(x, str):
                     raise AbsRaise(ExcVal('ValueError', ('string timestamps are outside the modelled subset',)), node)
                 else:
-                    raise AbsRaise(ExcVal('TypeError', (f'cannot convert {type(x).__name__} to datetime',)), node)
+                    raise AnalysisError(f'to_datetime of {type(x).__name__} not modelled', node)
             return out, tz
         raise AnalysisError(f'datetime conversion of {type(src).__name__} not modelled', node)
 
